@@ -247,6 +247,17 @@ class Cloner:
                 io_map[input] = new_input
         for output, new_output in zip(node.outputs, new_node.outputs):
             io_map[output] = new_output
+        # A spec may also target a value that is not an input or output of this node (neither the
+        # constructor nor the ``device_configurations`` setter forbids it): such a spec follows
+        # the global value map, so that it does not keep pointing at the original graph's value.
+        for configuration in new_node.device_configurations:
+            for spec in configuration.sharding_specs:
+                if (
+                    spec.value is not None
+                    and spec.value not in io_map
+                    and spec.value in self._value_map
+                ):
+                    io_map[spec.value] = self._value_map[spec.value]
         new_node.device_configurations = self._remap_device_configurations(
             new_node.device_configurations, io_map
         )
